@@ -21,6 +21,10 @@ const (
 	// a split whose file part lacks a leaf that the schema requires is rejected although the
 	// environment supplies the leaf
 	sigSplitSchema = "split-file-part-rejected-by-schema"
+	// ... the file part is rejected although it holds every leaf the schema requires (what the environment supplies
+	// is optional for the schema, e.g. the `type` of a mechanism whose definition does not require it); followed
+	// by the place the schema complains about
+	sigSplitComplete = "split-file-part-with-all-required-leaves-rejected-by-schema:"
 
 	sigAllEnv   = "all-env-differs-from-all-file"
 	sigSplit    = "split-differs-from-all-file"
@@ -40,8 +44,11 @@ type harness struct {
 	// the environment form of a table entry does not make the entry undecidable
 	listDefectsAbsent bool
 	sampled           int
+	discrRng          *rand.Rand // stream of the plans that move `type` leaves to the environment
 
 	validFiles map[string]bool // unquotedValues: file part -> accepted by the schema
+	bareStatic []bareCase      // unquotedValues: the free-text string options of the static configuration
+	bareMech   []bareCase      // ... and the string options of mechanisms
 }
 
 // calibrate loads a tiny catalogue completely from the environment many times: several variables per
@@ -95,6 +102,7 @@ type parts struct {
 	env      []envLeaf
 	nBoth    int
 	filePath map[string]bool // every prefix of every file leaf path
+	reqInEnv int             // leaves the schema requires that only the environment holds
 }
 
 func makeParts(leaves []leaf, modes []int, rng *rand.Rand) parts {
@@ -110,6 +118,9 @@ func makeParts(leaves []leaf, modes []int, rng *rand.Rand) parts {
 			}
 			fallthrough
 		case mEnv:
+			if l.S.Req && modes[i] == mEnv {
+				p.reqInEnv++
+			}
 			p.env = append(p.env, envLeaf{l.Path, envVar{envName(l.Path), envValue(l.S.V, rng != nil && rng.IntN(5) == 0)}})
 		}
 	}
@@ -320,6 +331,10 @@ type caseReport struct {
 	Observed string     `json:"observed"`
 	Diff     []leafDiff `json:"differing_leaves,omitempty"`
 	Triggers any        `json:"list_defect_triggers,omitempty"`
+
+	// complete: the file part holds every leaf the schema requires (as far as the harness knows the schema's
+	// `required` lists): its rejection by the schema is not the open finding sigSplitSchema
+	complete bool
 }
 
 func keysOf(m map[string]bool) []string {
@@ -360,6 +375,14 @@ func pickDiffs(all []leafDiff, sel []string, max int) []leafDiff {
 func (h *harness) judge(rep caseReport, generic string, exp, obs *outcome, t triggers, envLeaves []envLeaf, fileOnly func() map[string]string) bool {
 	r := h.r
 	if !obs.loaded() {
+		if obs.Schema && rep.complete {
+			rep.Observed = "file part rejected by the schema: " + obs.LoadErr
+			for _, place := range schemaErrorPlaces(obs.errLines) {
+				r.Violation(sigSplitComplete+place, "a split of a valid configuration is rejected by the schema at "+place+" although the file part holds every leaf the schema requires ("+
+					rep.Plan+"): "+short(obs.LoadErr, 200), rep)
+			}
+			return false
+		}
 		if obs.Schema {
 			rep.Observed = "file part rejected by the schema: " + obs.LoadErr
 			r.Violation(sigSplitSchema, "a split of a valid configuration is rejected because the file part alone does not satisfy the schema ("+rep.Plan+")", rep)
@@ -611,6 +634,7 @@ func (h *harness) runCase(id string, tree map[string]any, light bool, rng *rand.
 		nOrders  int
 		reqAware bool
 		sections bool
+		rng      *rand.Rand // nil: the stream of the exploration
 	}
 	mk := func(f func(i int, l leaf) int) []int {
 		m := make([]int, len(leaves))
@@ -621,10 +645,10 @@ func (h *harness) runCase(id string, tree map[string]any, light bool, rng *rand.
 	}
 	nEnvOrders, nSplitOrders := r.Pick(5, 8), r.Pick(2, 4)
 	var plans []planT
-	plans = append(plans, planT{"all-env", mk(func(int, leaf) int { return mEnv }), sigAllEnv, nEnvOrders, false, false})
+	plans = append(plans, planT{"all-env", mk(func(int, leaf) int { return mEnv }), sigAllEnv, nEnvOrders, false, false, nil})
 	plans = append(plans, planT{name: "all-env, one variable per top-level section (JSON value)", generic: sigAllEnv, nOrders: 2, sections: true})
 	if light || rng.IntN(4) == 0 {
-		plans = append(plans, planT{"all-conflicting (file: other values, env: intended values)", mk(func(int, leaf) int { return mBoth }), sigSplit, nSplitOrders, true, false})
+		plans = append(plans, planT{"all-conflicting (file: other values, env: intended values)", mk(func(int, leaf) int { return mBoth }), sigSplit, nSplitOrders, true, false, nil})
 	}
 	// sparse split: at most one environment variable per list
 	{
@@ -650,16 +674,46 @@ func (h *harness) runCase(id string, tree map[string]any, light bool, rng *rand.
 				return mBoth
 			}
 			return mFile
-		}), sigSplit, nSplitOrders, true, false})
+		}), sigSplit, nSplitOrders, true, false, nil})
+	}
+	// discriminators: the `type` leaves that the schema does not require come from the environment (all of them, and
+	// one of them alone); everything else stays in the file. The plans draw from a stream of their own.
+	var discrs []int
+	for i, l := range leaves {
+		if l.S.Discr && !l.S.Req {
+			discrs = append(discrs, i)
+		}
+	}
+	if len(discrs) > 0 {
+		r.Count("configurations_with_type_leaves_not_required_by_schema", 1)
+		only := func(sel func(i int) bool) []int {
+			return mk(func(i int, l leaf) int {
+				if l.S.Discr && !l.S.Req && sel(i) {
+					return mEnv
+				}
+				return mFile
+			})
+		}
+		plans = append(plans, planT{name: "all types the schema does not require in the environment, everything else in the file", modes: only(func(int) bool { return true }),
+			generic: sigSplit, nOrders: nSplitOrders, reqAware: true, rng: h.discrRng})
+		if len(discrs) > 1 {
+			one := discrs[h.discrRng.IntN(len(discrs))]
+			plans = append(plans, planT{name: "one type the schema does not require in the environment, everything else in the file", modes: only(func(i int) bool { return i == one }),
+				generic: sigSplit, nOrders: 1, reqAware: true, rng: h.discrRng})
+		}
 	}
 	if !light {
-		plans = append(plans, planT{"dense split", mk(func(int, leaf) int { return []int{mFile, mFile, mEnv, mEnv, mBoth}[rng.IntN(5)] }), sigSplit, nSplitOrders, true, false})
+		plans = append(plans, planT{"dense split", mk(func(int, leaf) int { return []int{mFile, mFile, mEnv, mEnv, mBoth}[rng.IntN(5)] }), sigSplit, nSplitOrders, true, false, nil})
 	}
 	if rng.IntN(3) == 0 {
-		plans = append(plans, planT{"split ignoring required leaves", mk(func(int, leaf) int { return []int{mFile, mFile, mEnv}[rng.IntN(3)] }), sigSplit, 1, false, false})
+		plans = append(plans, planT{"split ignoring required leaves", mk(func(int, leaf) int { return []int{mFile, mFile, mEnv}[rng.IntN(3)] }), sigSplit, 1, false, false, nil})
 	}
 
 	for _, pl := range plans {
+		rng := rng
+		if pl.rng != nil {
+			rng = pl.rng
+		}
 		if pl.sections {
 			pl.modes = make([]int, len(leaves))
 		} else if pl.name != "all-env" {
@@ -707,7 +761,10 @@ func (h *harness) runCase(id string, tree map[string]any, light bool, rng *rand.
 			}
 			nontrivial := len(p.env) >= 1 && (len(p.file) > 0 || len(p.env) >= 3)
 			r.Case(core.Hash([]any{fileYAML, vars}), nontrivial)
-			rep := caseReport{Case: id, Plan: pl.name, File: fileYAML, Env: vars, Intended: intended}
+			rep := caseReport{Case: id, Plan: pl.name, File: fileYAML, Env: vars, Intended: intended, complete: p.reqInEnv == 0}
+			if pl.rng != nil { // the two plans above that move types only
+				r.Count("loads_with_types_from_environment_and_the_rest_in_the_file", 1)
+			}
 			ok := h.judge(rep, pl.generic, exp, obs, t, p.env, fileOnly)
 			outcomes[obs.Canon+obs.LoadErr] = true
 			if ok {
@@ -759,7 +816,12 @@ func TestC20(t *testing.T) {
 		"info, IPv6 hosts, queries and fragments go through the equivalence table on the mechanisms' endpoint options. Unquoted values: every string option of the static " +
 		"configuration (found by walking the Configuration type) and string options of mechanisms get texts that a YAML parser reads as integer, float, boolean, null or as " +
 		"another string, unquoted as value of the environment variable (with the option absent from the file and over another value in the file), compared with the file " +
-		"holding the same text. Environment prefix: generated configurations are loaded (all-env and split) under prefixes in upper, lower and mixed case, with digits and " +
+		"holding the same text. Unquoted values in the file: every text the loader's YAML 1.2 parser reads as the very string although other YAML versions or dialects read a boolean or a " +
+		"number (yes/no/on/off/y/n in all spellings, sexagesimal numbers ...) is written as plain scalar in the file for the same options and compared with the quoted scalar in the file and with " +
+		"the value given by the environment. Types from the environment: for every kind of mechanism and of cache (and config variants several definitions of the schema could match) the `type` " +
+		"leaf alone comes from the environment while the rest of the entry stays in the file, one entry at a time and for whole catalogues; the generated configurations get two more plans " +
+		"(all types the schema does not require / one of them in the environment, everything else in the file). A file part that holds every leaf the schema requires must be accepted; where the " +
+		"schema requires the type the rejection belongs to the finding that the schema is applied to the file alone. Environment prefix: generated configurations are loaded (all-env and split) under prefixes in upper, lower and mixed case, with digits and " +
 		"underscores, without trailing underscore and one starting with another, while the environment also holds decoy variables under look-alike prefixes with other values; " +
 		"the result must equal the all-file load. Loads whose inputs contain a trigger of one of the two list defects are " +
 		"classified separately (class with-list-defect-trigger); all other loads are compared strictly. A load is non-trivial when it has environment " +
@@ -797,9 +859,12 @@ func TestC20(t *testing.T) {
 		h.indexSpellings()
 		h.valueShapes()
 		h.unquotedValues()
+		h.unquotedFileValues()
 		h.envPrefixes()
+		h.typeSplits()
 		n := r.Pick(70, 1500)
 		rng := r.Stream("configs")
+		h.discrRng = r.Stream("type-plans")
 		for i := 0; i < n; i++ {
 			g := &gen{r: rng, w: w, light: i%3 == 2}
 			h.runCase(fmt.Sprintf("cfg-%d", i), g.config(), g.light, rng)
@@ -816,6 +881,8 @@ func TestC20(t *testing.T) {
 	r.Require("index_spelling_loads_plain_decimal", r.Counter("index_spelling_loads_plain_decimal"), 30)
 	r.Require("value_shape_cases", r.Counter("value_shape_cases"), 500)
 	r.Require("unquoted_value_loads", r.Counter("unquoted_value_loads"), 60)
+	r.Require("unquoted_file_value_loads", r.Counter("unquoted_file_value_loads"), 40)
+	r.Require("loads_with_types_from_environment_and_the_rest_in_the_file", r.Counter("loads_with_types_from_environment_and_the_rest_in_the_file"), 100)
 	r.Require("env_prefix_loads_with_lower_case_letters_in_prefix", r.Counter("env_prefix_loads_with_lower_case_letters_in_prefix"), 12)
 	if bad, tot := r.Counter("generated_configurations_not_usable_from_file"), r.Counter("configurations"); bad*10 > tot+bad {
 		r.Inconclusive(fmt.Sprintf("%d of %d generated configurations are not usable from a file (generator or validator out of step)", bad, bad+tot))
